@@ -375,6 +375,7 @@ def judge_containment(case, r):
 
 class C18(ModelCheck):
     prop = PROP
+    level = "fault_enumeration"
     rule = (
         "(A) attribution: generated programs with a call chain of depth 1-5 across plain functions, methods, "
         "comprehensions, multi-line expressions and an optional user-written decorator, with one fault (10 kinds: builtin "
